@@ -448,3 +448,46 @@ def fornum_coercion_cases():
             ss.append(p.emit([p.str("kept"), p.call(p.id("type"), [p.id("a")]), p.call(p.id("type"), [p.id("b")])]))   # the variables themselves keep their strings
         out.append((p, p.block(ss)))
     return out
+
+
+def same_label_cases(rng, n):
+    """labels of one name in nested and sibling blocks (the usual ::continue:: at the end of every loop body): a goto
+    binds to the label of the innermost ENCLOSING block that declares the name, never to one inside a block it is not
+    in - whatever other gotos of the function were resolved before it"""
+    out = []
+    while len(out) < n:
+        p = Prog()
+        depth = rng.randint(2, 3)
+        names = ["i", "j", "k"]
+        lab = rng.choice(["continue", "next", "L"])
+
+        def loop(d):
+            v = names[d]
+            body = []
+            if rng.random() < 0.6:          # a goto that is resolved at once (its label is already known / in its own block)
+                body.append(p.do(p.block([p.goto("near%d" % d), p.emit([p.str("skipped")]), p.label("near%d" % d)])))
+            cond = p.bin("==", p.bin("%", p.id(v), p.num(2)), p.num(rng.randint(0, 1)))
+            jump = p.block([p.emit([p.str("skip-" + v), p.id(v)]), p.goto(lab)])
+            for _ in range(rng.randint(0, 2)):
+                jump = p.block([p.do(jump)])
+            body.append(p.if_([cond], [jump]))
+            if d + 1 < depth:
+                body.append(loop(d + 1))
+                if rng.random() < 0.5:      # a second sibling loop with its own label of the same name
+                    body.append(loop(d + 1))
+            body.append(p.emit([p.str("tail-" + v), p.id(v)]))
+            body.append(p.label(lab))
+            kind = rng.choice(["fornum", "while", "repeat"])
+            if kind == "fornum":
+                return p.fornum(v, p.num(1), p.num(rng.randint(2, 3)), 0, p.block(body))
+            cnt = "c%d_%d" % (d, len(p.nodes))
+            if kind == "while":
+                return p.do(p.block([p.local([cnt], [p.num(0)]), p.while_(p.bin("<", p.id(cnt), p.num(2)), p.block(
+                    [p.assign([p.id(cnt)], [p.bin("+", p.id(cnt), p.num(1))]), p.local([v], [p.id(cnt)])] + body))]))
+            return p.do(p.block([p.local([cnt], [p.num(0)]), p.repeat(p.block(
+                [p.assign([p.id(cnt)], [p.bin("+", p.id(cnt), p.num(1))]), p.local([v], [p.id(cnt)])] + body), p.bin(">=", p.id(cnt), p.num(2)))]))
+        ss = [loop(0), p.emit([p.str("done")])]
+        if rng.random() < 0.5:
+            ss = [p.localfunction("run", p.func([], p.block(ss))), p.callstat(p.call(p.id("run"), []))]
+        out.append((p, p.block(ss)))
+    return out
